@@ -254,14 +254,18 @@ for line in sys.stdin:
 """
 
 
-def run_cases(ctx, module, fn, cases, nproc=None, chunk=None, env=None, deadline=None, hashseed="0"):
+def run_cases(ctx, module, fn, cases, nproc=None, chunk=None, env=None, deadline=None, hashseed="0", contiguous=False):
     """Execute `module.fn(case)` for every case in worker subprocesses that import the library from the
     snapshot.  Returns list of results aligned with cases (None where the deadline cut the run short)."""
     nproc = min(nproc or NCPU, max(1, len(cases)))
     boot = _WORKER_BOOT % {"snap": ctx.snapshot(), "verif": VERIF, "mod": module, "fn": fn}
     e = ctx.pyenv(env, hashseed=hashseed)
     results = [None] * len(cases)
-    shards = [list(range(i, len(cases), nproc)) for i in range(nproc)]
+    if contiguous:      # neighbouring cases go to the same worker (they share settings, hence the library's caches)
+        per = -(-len(cases) // nproc)
+        shards = [list(range(i * per, min(len(cases), (i + 1) * per))) for i in range(nproc)]
+    else:
+        shards = [list(range(i, len(cases), nproc)) for i in range(nproc)]
     procs = []
     import threading
 
